@@ -43,8 +43,8 @@ func init() {
 				bulk = "4"
 			}
 			return []Stage{
-				{Name: "seq", Scenario: "c09fullsync", Args: "par=12,hooks=60,bulk=" + bulk, Children: n, Cases: c, Timeout: 14 * time.Minute},
-				{Name: "race", Scenario: "c09fullsync", Args: "par=60,hooks=50,race=1", Children: rn, Cases: rc, Race: true, Timeout: 14 * time.Minute},
+				{Name: "seq", Scenario: "c09fullsync", Args: "par=12,hooks=60,httpsup=1,bulk=" + bulk, Children: n, Cases: c, Timeout: 14 * time.Minute},
+				{Name: "race", Scenario: "c09fullsync", Args: "par=60,hooks=50,race=1,httpsup=1", Children: rn, Cases: rc, Race: true, Timeout: 14 * time.Minute},
 			}
 		},
 		Post: c09Post,
